@@ -226,7 +226,39 @@ def check_write_batch_bracket(ctx):
     C02.check_order(ctx, "C03.bracket/write_batch")
 
 
+def check_journal_validity(ctx):
+    """which journal entries recovery accepts: an intent whose extent ends exactly at the device end must replay (else a torn
+    record there has no cover and the strict scan refuses the file), the journal position survives restarts (C04.position)"""
+    from rules import C04
+    from rules.common import pin_comparisons, closure_ret_cmp
+    inst = "C03.journal-validity"
+    C04.check_position(ctx, "C03.journal-position")
+    b = ctx.fn("allocation_journal::decode_slot", inst)
+    if b is None:
+        return
+    def entry(e):
+        return e.has_call("from_le_bytes") and not e.has_call("checked_add")
+    def end(e):
+        return e.has_call("checked_add")
+    pin_comparisons(ctx, inst, b, [
+        ("Lt", entry, lambda e: e.k == "const" and e.has_const(name="FEOX_DATA_START_BLOCK"), "an entry below the data area is refused (`sector < FEOX_DATA_START_BLOCK`)"),
+        ("Lt", entry, end, "an entry whose end does not exceed its start is refused (`end <= sector`)"),
+    ])
+    flt = ctx.sites(b, R.call("Option::filter"), inst, exact=1)
+    ok = False
+    for c in ctx.prog.closures_of(b):
+        x = closure_ret_cmp(c)
+        if x and x["rhs_upvars"] == {"total_sectors"} and not x["lhs_upvars"] and x["lhs_e"].has_arg(idx=2):
+            ok = x["op"] == "Le"
+            ctx.check(ok, inst, "PIN", b.path, "an entry is inside the device iff `end <= total_sectors` (an extent ending exactly at the device end is valid)", None,
+                      {"found": "%s %s %s" % (x["lhs"], x["op"], x["rhs"])})
+            break
+    else:
+        ctx.fail(inst, "PIN", b.path, "the device-end bound of a journal entry (`end <= total_sectors`) is not found", None)
+
+
 def check(ctx):
+    check_journal_validity(ctx)
     check_losers(ctx)
     check_layer(ctx)
     check_bracket(ctx)
